@@ -23,6 +23,9 @@ def base_files():
     files["hrs"] = (["-w", "8", "-r", "4"], F.hrs_file(pal, C.body_lin(16, 3, 1)), {"header": range(0, 16), "control": []})
     files["max"] = (["-w", "16"], F.max_file(C.body_lin(2 * 5, 5, 3)), {"header": range(0, 5), "control": []})
     files["maxnews"] = (["-newsroom"], F.newsroom_file(2, 5, C.body_lin(10, 5, 3)), {"header": range(0, 2), "control": []})
+    # the same two files with header errors ignored (-i): a damaged file must still be reported or decoded completely
+    files["maxi"] = (["-w", "16", "-i"], F.max_file(C.body_lin(2 * 5, 5, 3)), {"header": range(0, 5), "control": []})
+    files["maxnewsi"] = (["-newsroom", "-i"], F.newsroom_file(2, 5, C.body_lin(10, 5, 3)), {"header": range(0, 2), "control": []})
     files["pix"] = ([], C.body_lin(32, 7, 1), {"header": [], "control": []})
     body = bytes(((i // 255) * 17 + 1) & 255 for i in range(32000))
     mge = F.mge_rle_file(pal, body, Chooser(()))
@@ -42,7 +45,7 @@ def base_files():
 
 
 def toolname(k):
-    return {"maxnews": "max", "mgeraw": "mge", "vefraw": "vef"}.get(k, k)
+    return {"maxnews": "max", "maxi": "max", "maxnewsi": "max", "mgeraw": "mge", "vefraw": "vef"}.get(k, k)
 
 
 def gen(run):
@@ -85,7 +88,7 @@ def gen(run):
     shorts = [b""] + [bytes([a]) for a in range(256)]
     a2 = ALPHA_Q if quick else range(256)
     shorts += [bytes([a, b]) for a in a2 for b in a2]
-    for fmt in ("hrs", "max", "maxnews", "pix", "mge", "rat", "cm3", "vef"):
+    for fmt in ("hrs", "max", "maxnews", "maxi", "maxnewsi", "pix", "mge", "rat", "cm3", "vef"):
         opts = files[fmt][0]
         for s in shorts:
             faults.append((fmt, opts, s, "short", [fmt, "short-string"]))
